@@ -249,6 +249,7 @@ CHECKS = {
             mc("matrix-index", "MC_C04.tla", "MC_C04_index.cfg"),
             mc("matrix-logic", "MC_C04.tla", "MC_C04_logic.cfg"),
             mc("matrix-chains", "MC_C04.tla", "MC_C04_logic3.cfg"),
+            mc("matrix-quantifiers", "MC_C04.tla", "MC_C04_quant.cfg", workers=2),
             lang("mutants", "rich", 5000, 200000, ["--nctx", "4", "--depth", "3", "--mutate", "60"], shards=SH),
             lang("scalar-mutants", "c01", 2000, 60000, ["--nctx", "4", "--depth", "4", "--mutate", "60"], shards=SH, seed_off=2),
         ],
